@@ -108,6 +108,7 @@ type blockLine struct {
 	Prices  []int64       `json:"prices"`
 	Cfg     execCfg       `json:"cfg"`
 	Out     *blockOutcome `json:"out"`
+	FailKey string        `json:"failkey"` // abstract name of the parent key whose read was made to fail ("" = none)
 }
 
 type resetLine struct {
@@ -232,7 +233,7 @@ func TestVerifChainExec(t *testing.T) {
 				ntx = 1
 			}
 			lowConflict := r.Intn(3) == 0
-			hotKey := mode == "c01" && r.Intn(3) == 0
+			hotKey := (mode == "c01" || mode == "c24") && r.Intn(3) == 0
 			hot := w.keyNames[r.Intn(len(w.keyNames))]
 			if hotKey {
 				lowConflict = true
@@ -317,7 +318,27 @@ func TestVerifChainExec(t *testing.T) {
 				{Cores: []int{8, 16}[r.Intn(2)], Fetch: []int{4, 16}[r.Intn(2)], AuthW: 4, Gated: true}, {Cores: 4, Fetch: 2, AuthW: 2}}
 			var last *blockOutcome
 			for rep, cfg := range cfgs {
-				oc, err := w.runBlock(parentView, parentID, uint64(st.Height+1), ts, txs, cfg, nil, seed*31+int64(s*100+b*10+rep), acts, "", nil)
+				failKey, failName := "", ""
+				if mode == "c24" && rep == 1 && r.Intn(2) == 0 {
+					cands := []string{string(chain.HeightKey(w.mm.HeightPrefix())), string(chain.FeeKey(w.mm.FeePrefix()))}
+					for _, v := range vtxs {
+						cands = append(cands, string(w.bh.BalanceKey(w.addr[v.Sponsor])))
+						for _, a := range v.Actions {
+							for _, k := range a.Keys {
+								if k.Bal == "" {
+									cands = append(cands, string(keyBytes(k.Name, k.Chunks)))
+								}
+							}
+						}
+					}
+					cands = append(cands, string(keyBytes("zz", 1))) // a key nobody declares: must not matter
+					failKey = cands[r.Intn(len(cands))]
+					failName = w.nameOf(failKey)
+					if len(failName) >= 5 && failName[:5] == "other" {
+						failName = "undeclared"
+					}
+				}
+				oc, err := w.runBlock(parentView, parentID, uint64(st.Height+1), ts, txs, cfg, nil, seed*31+int64(s*100+b*10+rep), acts, failKey, nil)
 				if err != nil {
 					rec.dump(t, fmt.Sprintf("sc%05d", s))
 					t.Fatalf("scenario %d block %d rep %d: %v", s, b, rep, err)
@@ -326,7 +347,7 @@ func TestVerifChainExec(t *testing.T) {
 					oc.Results, oc.Prices, oc.Consumed, oc.Post = []txResult{}, oc.Expected, []int64{0, 0, 0, 0, 0}, st
 				}
 				rec.add(blockLine{Ev: "block", Bid: b, Rep: rep, Advance: rep == len(cfgs)-1, Hdr: hdrRec{st.Height + 1, ts, false, true, ts - st.Timestamp, false},
-					Txs: recs, Prices: oc.Expected, Cfg: cfg, Out: oc})
+					Txs: recs, Prices: oc.Expected, Cfg: cfg, Out: oc, FailKey: failName})
 				last = oc
 			}
 			if last.Err != "" {
